@@ -422,11 +422,45 @@ func (cr *checkRun) report(start time.Time, evPath string) int {
 			failedW[o] = cr.lemmaW[o]
 		}
 	}
-	// classify failures
+	// bounded stand-ins (never counted as proved)
+	bounded := runBounded(prop, cr.tier)
+	// classify failures. Frame obligations of one function are reported together.
 	violations := 0
 	var knownHit []string
 	var lines []string
+	frameGroup := map[string][]*Obligation{}
+	var frameOrder []string
+	var rest []*Obligation
 	for _, o := range failed {
+		if o.Kind == "frame" {
+			if _, ok := frameGroup[o.Func]; !ok {
+				frameOrder = append(frameOrder, o.Func)
+			}
+			frameGroup[o.Func] = append(frameGroup[o.Func], o)
+			continue
+		}
+		rest = append(rest, o)
+	}
+	for _, fn := range frameOrder {
+		g := frameGroup[fn]
+		if len(g) == 1 {
+			rest = append(rest, g[0])
+			continue
+		}
+		var names []string
+		body := ""
+		for _, o := range g {
+			names = append(names, o.Label)
+			body += fmt.Sprintf("obligation %s: %s %v\n", o.Name, o.Result.Status, o.Result.All)
+		}
+		merged := &Obligation{Name: fn + "#frame", Func: fn, Label: "frame", Kind: "frame", Star: g[0].Star, Props: g[0].Props, Expect: "unsat",
+			Result: &SolverResult{Status: g[0].Result.Status, Output: fmt.Sprintf("%d frame obligations of %s failed (the function writes, or calls code without a contract that may write, outside its modifies clause):\n%s\n%s", len(g), fn, body, g[0].Result.Output), All: g[0].Result.All}}
+		failedW[merged] = failedW[g[0]]
+		merged.Goal, merged.Mark = g[0].Goal, g[0].Mark
+		rest = append(rest, merged)
+		_ = names
+	}
+	for _, o := range rest {
 		var kf *knownFinding
 		for i := range known.Findings {
 			k := &known.Findings[i]
@@ -441,7 +475,7 @@ func (cr *checkRun) report(start time.Time, evPath string) int {
 		}
 		violations++
 		body := fmt.Sprintf("property: %s\nobligation: %s\nkind: %s\nresult: %s\nsolvers: %v\n\n--- solver output ---\n%s\n", prop, o.Name, o.Kind, o.Result.Status, o.Result.All, o.Result.Output)
-		if w := failedW[o]; w != nil {
+		if w := failedW[o]; w != nil && o.Mark > 0 {
 			body += "\n--- query (SMT-LIB) ---\n" + o.query(w) + "(check-sat)\n"
 		}
 		rp := writeReplay(prop, o.Name, body)
@@ -454,6 +488,32 @@ func (cr *checkRun) report(start time.Time, evPath string) int {
 		}
 		lines = append(lines, fmt.Sprintf("VIOLATION property=%s replay=%s%s", prop, rp, suffix))
 		lines = append(lines, fmt.Sprintf("  failed obligation %s (%s): %s", o.Name, o.Kind, o.Result.Status))
+	}
+	for _, b := range bounded {
+		for _, v := range b.Violations {
+			name := "bounded." + b.Name + "#" + v.Class
+			var kf *knownFinding
+			for i := range known.Findings {
+				k := &known.Findings[i]
+				if k.Property == prop && k.Obligation == name && k.Status != "fixed" {
+					kf = k
+				}
+			}
+			if kf != nil {
+				lines = append(lines, fmt.Sprintf("KNOWN-FINDING: property=%s %s [%s]", prop, kf.Text, name))
+				knownHit = append(knownHit, name)
+				continue
+			}
+			violations++
+			rp := writeReplay(prop, name, fmt.Sprintf("property: %s\nbounded stand-in: %s (%s)\nviolation class: %s\nfailing input: %s\n\nre-run: go test -overlay (see %s) -run %s ./%s\n\n--- output ---\n%s\n", prop, b.Name, b.What, v.Class, v.Detail, b.File, b.Run, b.Pkg, b.Output))
+			lines = append(lines, fmt.Sprintf("VIOLATION property=%s replay=%s", prop, rp))
+			lines = append(lines, fmt.Sprintf("  bounded stand-in %s: %s %s", b.Name, v.Class, v.Detail))
+		}
+		if b.Error != "" {
+			violations++
+			rp := writeReplay(prop, "bounded."+b.Name+"#error", b.Error+"\n"+b.Output)
+			lines = append(lines, fmt.Sprintf("VIOLATION property=%s replay=%s no-failing-input-found", prop, rp))
+		}
 	}
 	if total == 0 {
 		violations++
@@ -549,3 +609,96 @@ func runReplayTest(body string) int {
 }
 
 var _ = exec.Command
+
+type boundedViolation struct {
+	Class  string `json:"class"`
+	Detail string `json:"detail"`
+}
+
+type boundedRun struct {
+	Property   string             `json:"property"`
+	Name       string             `json:"name"`
+	Pkg        string             `json:"pkg"`
+	File       string             `json:"file"`
+	Run        string             `json:"run"`
+	QuickBound string             `json:"quick_bound"`
+	ThorBound  string             `json:"thorough_bound"`
+	What       string             `json:"what"`
+	Bound      string             `json:"bound"`
+	Evaluated  int                `json:"evaluated"`
+	Distinct   int                `json:"distinct"`
+	Exhaustive bool               `json:"exhaustive_within_bound"`
+	Violations []boundedViolation `json:"violations"`
+	Seconds    float64            `json:"seconds"`
+	Error      string             `json:"error,omitempty"`
+	Output     string             `json:"-"`
+	Label      string             `json:"label"`
+}
+
+// runBounded executes the bounded stand-ins registered for a property: real
+// code run exhaustively up to a stated bound for functions that are under an
+// assumed contract in the proofs.
+func runBounded(prop, tier string) []*boundedRun {
+	data, err := os.ReadFile(filepath.Join(verifRoot(), "bounded", "index.json"))
+	if err != nil {
+		return nil
+	}
+	var all []*boundedRun
+	if json.Unmarshal(data, &all) != nil {
+		return nil
+	}
+	var out []*boundedRun
+	for _, b := range all {
+		if b.Property != prop {
+			continue
+		}
+		b.Label = "bounded (not a proof)"
+		b.Bound = b.QuickBound
+		if tier == "thorough" {
+			b.Bound = b.ThorBound
+		}
+		start := time.Now()
+		src, err := os.ReadFile(filepath.Join(verifRoot(), b.File))
+		if err != nil {
+			b.Error = err.Error()
+			out = append(out, b)
+			continue
+		}
+		os.Setenv("GOAVC_BOUND", b.Bound)
+		o, _ := runOverlayTest(modPath+"/"+b.Pkg, string(src), b.Run)
+		b.Output = o
+		b.Seconds = time.Since(start).Seconds()
+		seenStats := false
+		for _, ln := range strings.Split(o, "\n") {
+			if strings.HasPrefix(ln, "BOUNDED-VIOLATION ") {
+				f := strings.SplitN(strings.TrimPrefix(ln, "BOUNDED-VIOLATION "), " ", 2)
+				v := boundedViolation{Class: f[0]}
+				if len(f) > 1 {
+					v.Detail = f[1]
+				}
+				b.Violations = append(b.Violations, v)
+			}
+			if strings.HasPrefix(ln, "BOUNDED-STATS ") {
+				seenStats = true
+				for _, kv := range strings.Fields(strings.TrimPrefix(ln, "BOUNDED-STATS ")) {
+					p := strings.SplitN(kv, "=", 2)
+					if len(p) == 2 {
+						n, _ := strconv.Atoi(p[1])
+						switch p[0] {
+						case "evaluated":
+							b.Evaluated = n
+						case "distinct":
+							b.Distinct = n
+						}
+					}
+				}
+			}
+		}
+		b.Exhaustive = seenStats
+		if !seenStats {
+			b.Error = "bounded stand-in did not complete"
+		}
+		out = append(out, b)
+	}
+	return out
+}
